@@ -1,7 +1,9 @@
 import PsiModel.Stim
 import PsiProofs.Helper.C01_Gate
 import PsiProofs.Helper.C01_Square
+import PsiProofs.Helper.C01_SquareEnv
 /-! Every finite nesting of factories (`Stim`) is additive, hence chunk-invariant. -/
+set_option linter.dupNamespace false
 namespace Psi.Stim
 open Psi.Chunk
 
@@ -10,6 +12,11 @@ of one function of the absolute sample index. -/
 def SquareSliceLaw (p : SqP) : Prop :=
   ∀ id : Nat, ∃ f : Nat → Cell, ∀ off n,
     squareWave (Cell.a .tukey id) (Cell.c .low id) p off n = slice f off n
+
+/-- The law holds for every positive period (`squareWave_eq_slice`, exact rational arithmetic). -/
+theorem squareSliceLaw_of_pos (p : SqP) (hp : 0 < p.period) : SquareSliceLaw p :=
+  fun id => ⟨squareAt (Cell.a .tukey id) (Cell.c .low id) p,
+    fun off n => squareWave_eq_slice (Cell.a .tukey id) (Cell.c .low id) p hp off n⟩
 
 /-- `WF` plus the square-wave fragment law at every `sqenv` node. -/
 def Stim.WFs : Stim → Prop
@@ -21,6 +28,18 @@ def Stim.WFs : Stim → Prop
   | .sam _ _ _ inner => inner.WFs
   | .sqenv _ p _ inner => SquareSliceLaw p ∧ inner.WFs
   | .filt _ _ _ inner => inner.WFs
+
+/-- The guard `WF` (what the constructors accept) already implies the law at every `sqenv` node. -/
+theorem Stim.WF.wfs {g : Stim} (h : g.WF) : g.WFs := by
+  induction g with
+  | leaf => trivial
+  | sqwave => exact h
+  | fixed => trivial
+  | gate _ _ _ inner ih => exact ih h
+  | env _ _ _ inner ih => exact ⟨h.1, ih h.2⟩
+  | sam _ _ _ inner ih => exact ih h
+  | sqenv _ p _ inner ih => exact ⟨squareSliceLaw_of_pos p h.1, ih h.2⟩
+  | filt _ _ _ inner ih => exact ih h
 
 theorem filtRun_eq_applyAt (id j : Nat) (l : List Cell) :
     filtRun id j l = applyAt (fun k x => Cell.f id k x) j l := by
